@@ -18,7 +18,7 @@ pub const ENTRY: Entry = Entry {
     rule: "odometer over (framebuffer shape x every window accepted by init x 8 orientations x colour type x transport) x the \
            in-bounds drawing alphabet (every position / every sub-rectangle / every ordered pixel pair); each case is executed on \
            the real driver from init and compared with the canvas specification through the pin-level decoder and the reference \
-           controller; plus one chained program per configuration (all operations on one display, non-initial transport states) and \
+           controller; plus every combination of 8 orientations x 4 refresh orders x 2 colour orders x 2 inversions on the external model and on every built-in model (boundary program, run-time orientation change, boundary program again); plus one chained program per configuration (all operations on one display, non-initial transport states) and \
            depth-2 programs in thorough. Alphabets are deduplicated, so every case is distinct; non-trivial = the call wrote at \
            least one framebuffer cell.",
     assumptions: &[
@@ -324,6 +324,43 @@ fn run(ctx: &Ctx) -> Part {
         acc = acc.merge(a2);
     }
 
+    // ---- every option combination: 8 orientations x 4 refresh orders x 2 colour orders x 2 inversions (position must
+    // not depend on the other options), on the external model and on every built-in model with an offset window;
+    // then once more after a run-time orientation change
+    {
+        let mut ojobs: Vec<Cfg> = Vec::new();
+        for k in 0..128u32 {
+            let (o, refresh, bgr, invert) = ((k & 7) as u8, ((k >> 3) & 3) as u8, k & 32 != 0, k & 64 != 0);
+            let mut c = Cfg::tiny(4, 3, false, Transport::RecSerial, (3, 2, 1, 1), o);
+            c.refresh = refresh;
+            c.bgr = bgr;
+            c.invert = invert;
+            ojobs.push(c);
+            for (i, info) in BUILTINS.iter().enumerate() {
+                let tr = if info.supports[0] { Transport::RecSerial } else { Transport::RecPar8 };
+                ojobs.push(Cfg { model: ModelId::Builtin(i as u8), tr, win: Some((5, 4, 2, 3)), orient: o, bgr, invert, refresh, rst: false, flags: 0 });
+            }
+        }
+        let a = ojobs
+            .par_iter()
+            .fold(Acc::new, |mut acc, cfg| {
+                let mut states = HashSet::new();
+                let (lw, lh) = cfg.geo().lsize();
+                let mut hist = boundary_program(lw, lh, true);
+                let o2 = (cfg.orient + 3) % 8;
+                hist.push(Op::SetOrientation(o2));
+                let g2 = crate::spec::Geo { orient: o2, ..cfg.geo() };
+                let (lw2, lh2) = g2.lsize();
+                hist.extend(boundary_program(lw2, lh2, true));
+                check_one(ctx, &mut acc, cfg, &hist, &mut states);
+                acc.count("option_combinations", 1);
+                acc.states += states.len() as u64;
+                acc
+            })
+            .reduce(Acc::new, Acc::merge);
+        acc = acc.merge(a);
+    }
+
     // ---- leg C: built-in models at real size ------------------------------------------------------
     let mut bjobs: Vec<Cfg> = Vec::new();
     for (i, info) in BUILTINS.iter().enumerate() {
@@ -431,6 +468,7 @@ fn run(ctx: &Ctx) -> Part {
     part.require("depth3_programs", 1000);
     part.require("configurations_builtin", 14);
     part.require("configurations_extreme", 1);
+    part.require("option_combinations", 128);
     part
 }
 
